@@ -161,6 +161,9 @@ impl Curve for K256 {
 
     fn batch_normalize(p: &[Self], q: &mut [Self::AffineRepr]) {
         assert_eq!(p.len(), q.len());
+        if p.is_empty() {
+            return;
+        }
         // The batched inversion of the underlying implementation cannot handle the
         // identity (whose z-coordinate is zero).
         if p.iter().any(|pt| bool::from(pt.is_identity())) {
